@@ -35,8 +35,8 @@ RULE = (
     "(visible fill and witness) or (visible stroke and drawn segment). The converse is allowed. "
     "subpaths: SVGPath(d, paint).remove_empty_subpaths() must keep the fill region (winding, effective rule, when the fill "
     "is visible) and the three-valued stroke region (when the stroke is visible) at lattice, centre-line and edge-offset "
-    "points. doc: small documents of 1-4 such shapes, optionally inside a group carrying inheritable paint, rendered by "
-    "vlib.refsvg.render before and after SVG.remove_unpainted_shapes() / remove_empty_subpaths() / both (paint stack and "
+    "points. doc: small documents of 1-4 such shapes, optionally inside a group carrying inheritable paint, "
+    "optionally with a twin (the same geometry text once more with fresh paint or one hiding property on top, before or after the original), rendered by vlib.refsvg.render before and after SVG.remove_unpainted_shapes() / remove_empty_subpaths() / both (paint stack and "
     "colour at mutually trusted points). Non-trivial: shape = the oracle claims 'paints' AND at least one naive criterion "
     "says empty (zero signed area, zero-width/height bbox, other fill rule empty, area < 1e-6 E^2, zero-area geometry with "
     "visible stroke, deciding property borne by style); subpaths = >=2 subpaths of which one has no area of its own and "
